@@ -19,7 +19,7 @@ abbrev Bytes := List UInt8
 /-- statuses that can come out of the modelled functions (names as printed by `h_status`) -/
 inductive St where
   | enotfound | eformat | erange | edup | einval | esys | emem | eincompat
-  | fault     -- read outside an object (`strcmp` on a buffer without terminator)
+  | fault     -- read outside an object (only `files[fh]` of an `Ssi` whose file list is shorter than `nfiles`: never after `Open`)
   | nohalt    -- recursion of `esl_ssi_FindName` did not end within the fuel (stack overflow in C)
   deriving DecidableEq, Repr, Inhabited
 
@@ -421,18 +421,17 @@ def rd (d : Array UInt8) (off k : Nat) (e : St) : Except St Nat :=
 def openFiles (d : Array UInt8) (flen frecsize foffset : Nat) : Nat → Nat → Except St (List SsiFile)
   | 0, _ => .ok []
   | n+1, i =>
-    if flen = 0 then .error .emem
-    else
-      let off := foffset + (i * frecsize) % 4294967296      -- `i * ssi->frecsize` is a 32-bit product
-      match readAt d off flen with
-      | none => .error .eformat
-      | some name =>
-      match readFields d (off + flen) [4, 4, 4, 4] with
-      | some [fmt, fl, bpl, rpl] =>
-        match openFiles d flen frecsize foffset n (i+1) with
-        | .error e => .error e
-        | .ok rest => .ok ({ name := name, format := fmt, flags := fl, bpl := bpl, rpl := rpl } :: rest)
-      | _ => .error .eformat
+    -- the name buffer is `flen + 1` bytes, the last one set to NUL: `name` is the `flen` bytes read from the file
+    let off := foffset + (i * frecsize) % 4294967296      -- `i * ssi->frecsize` is a 32-bit product
+    match readAt d off flen with
+    | none => .error .eformat
+    | some name =>
+    match readFields d (off + flen) [4, 4, 4, 4] with
+    | some [fmt, fl, bpl, rpl] =>
+      match openFiles d flen frecsize foffset n (i+1) with
+      | .error e => .error e
+      | .ok rest => .ok ({ name := name, format := fmt, flags := fl, bpl := bpl, rpl := rpl } :: rest)
+    | _ => .error .eformat
 
 /-- `esl_ssi_Open` on the contents of the file -/
 def Ssi.open (d : Array UInt8) : Except St Ssi :=
@@ -469,19 +468,16 @@ def bsearchLoop (rdName : Nat → Except St Bytes) (key : Bytes) (left right : N
 termination_by right + 1 - left
 decreasing_by all_goals omega
 
-/-- `fseeko(base + recsize*mid); fread(name, klen)` and the implicit `strlen` of `strcmp(name, key)` -/
+/-- `fseeko(base + recsize*mid); fread(name, klen)` into the `klen + 1`-byte buffer whose last byte is NUL: the C string
+    that `strcmp(name, key)` sees is the field up to its first NUL, or the whole field when it has none -/
 def rdNameAt (d : Array UInt8) (klen base recsize : Nat) (mid : Nat) : Except St Bytes :=
   match readAt d (base + recsize * mid) klen with
   | none => .error .eformat
-  | some buf =>
-    match cstr? buf with
-    | none => .error .fault
-    | some s => .ok s
+  | some buf => .ok (cstr buf)
 
 /-- `binary_search`: on success the file position just after the key field of the record found -/
 def bsearch (d : Array UInt8) (key : Bytes) (klen base recsize maxidx : Nat) : Except St Nat :=
   if maxidx = 0 then .error .enotfound
-  else if klen = 0 then .error .emem
   else
     match bsearchLoop (rdNameAt d klen base recsize) key 0 (maxidx - 1) with
     | .error e => .error e
@@ -511,14 +507,10 @@ def Ssi.findNameAux (s : Ssi) : Nat → Bytes → Except St Hit
         match bsearch s.data key s.slen s.soffset s.srecsize s.nsecondary with
         | .error e => .error e
         | .ok pos =>
-          if s.plen = 0 then .error .emem
-          else
-            match readAt s.data pos s.plen with
-            | none => .error .eformat
-            | some buf =>
-              match cstr? buf with
-              | none => .error .fault
-              | some pkey => s.findNameAux fuel pkey
+          -- `pkey` is a `plen + 1`-byte buffer ending in NUL
+          match readAt s.data pos s.plen with
+          | none => .error .eformat
+          | some buf => s.findNameAux fuel (cstr buf)
       else .error .enotfound
     | .error e => .error e
 
@@ -529,7 +521,6 @@ def Ssi.findName (s : Ssi) (key : Bytes) : Except St Hit := s.findNameAux FUEL k
 def Ssi.findNumber (s : Ssi) (nkey : Int) : Except St (Hit × Bytes) :=
   let u : Nat := if nkey < 0 then (nkey + 18446744073709551616).toNat else nkey.toNat
   if u ≥ s.nprimary then .error .enotfound
-  else if s.plen = 0 then .error .emem
   else
     let pos := s.poffset + s.precsize * u
     match readAt s.data pos s.plen with
@@ -548,12 +539,14 @@ structure SubHit where
   actual : Nat
   deriving Repr, DecidableEq, Inhabited
 
-/-- `esl_ssi_FindSubseq` (with the repaired test `requested_start < 1`) -/
+/-- `esl_ssi_FindSubseq` (with the repaired tests: `requested_start < 1`; a stored file handle that is not a file of the
+    index is `eslEFORMAT`; `r == 0 || b == 0` is tested before the division) -/
 def Ssi.findSubseq (s : Ssi) (key : Bytes) (start : Int) : Except St SubHit :=
   match s.findName key with
   | .error e => .error e
   | .ok h =>
     if start < 1 ∨ start > toSigned h.len then .error .erange
+    else if h.fh ≥ s.nfiles then .error .eformat
     else
       match s.files[h.fh]? with
       | none => .error .fault
@@ -563,11 +556,10 @@ def Ssi.findSubseq (s : Ssi) (key : Bytes) (start : Int) : Except St SubHit :=
           let r := f.rpl
           let b := f.bpl
           let i := start.toNat
-          if r = 0 then .error .fault          -- `(i-1)/r` is evaluated before the `r == 0` test
+          if r = 0 ∨ b = 0 then .error .einval
           else
             let l := (i - 1) / r
-            if b = 0 then .error .einval
-            else if b = r + 1 then .ok { hit := h, doff := (h.doff + l * b + (i - 1) % r) % 2^64, actual := i }
+            if b = r + 1 then .ok { hit := h, doff := (h.doff + l * b + (i - 1) % r) % 2^64, actual := i }
             else .ok { hit := h, doff := (h.doff + l * b) % 2^64, actual := (1 + l * r) % 2^64 }
 
 /-- `esl_ssi_FileInfo` (+ the public per-file arrays) -/
